@@ -55,9 +55,9 @@ HistNoWiden == \A j \in 1..(i + 1) : Run.events[j].op # "widen"
 NOf(ev) == IF ev.op = "widen" THEN plen ELSE ev.arg
 \* ---- clauses, per property; "" = holds
 C01Clause(I, cf, ev) ==
-  IF Fresh(ev) /\ ~cf.ne /\ cf.W = NoW /\ FirstOrder(cf)
+  IF cf.tables /\ Fresh(ev) /\ ~cf.ne /\ cf.W = NoW /\ FirstOrder(cf)
      /\ ~Optimal(I, cf, ev.arg, [path |-> ev.path, idx |-> ev.idx]) THEN "not-optimal" ELSE ""
-C02Clause(I, cf, ev) == IF ~PathScoresMatchModel(I, cf, ev.path) THEN "path-score" ELSE ""
+C02Clause(I, cf, ev) == IF cf.tables /\ ~PathScoresMatchModel(I, cf, ev.path) THEN "path-score" ELSE ""
 C03Clause(I, cf, ev) ==
   LET complete == Len(ev.path) > 0 /\ ev.idx = NOf(ev) - 1
       sts == [j \in 1..Len(ev.path) |-> ev.path[j].st]
@@ -66,9 +66,9 @@ C03Clause(I, cf, ev) ==
      ELSE IF Len(ev.path) = 0 /\ ev.idx # 0 THEN "empty-result-index"
      ELSE IF Len(ev.path) > 0 /\ ev.idx # ev.path[Len(ev.path)].obs THEN "index-not-last-emitting"
      ELSE IF Len(ev.path) > 0 /\ complete /\ ev.early # -1 THEN "complete-but-early-stop"
-     ELSE IF Fresh(ev) /\ ~cf.ne /\ cf.W = NoW /\ FirstOrder(cf) /\ ((Len(ev.path) = 0) # (Reach(I, cf, 0) = {}))
+     ELSE IF cf.tables /\ Fresh(ev) /\ ~cf.ne /\ cf.W = NoW /\ FirstOrder(cf) /\ ((Len(ev.path) = 0) # (Reach(I, cf, 0) = {}))
           THEN "empty-iff-no-admissible-first-candidate"
-     ELSE IF Fresh(ev) /\ ~cf.ne /\ cf.W = NoW /\ FirstOrder(cf) /\ Len(ev.path) > 0 /\ ev.idx # OptIdx(I, cf, NOf(ev))
+     ELSE IF cf.tables /\ Fresh(ev) /\ ~cf.ne /\ cf.W = NoW /\ FirstOrder(cf) /\ Len(ev.path) > 0 /\ ev.idx # OptIdx(I, cf, NOf(ev))
           THEN "index-not-longest-explainable-prefix"
      ELSE ""
 C04Clause(I, cf, ev) ==
@@ -87,13 +87,17 @@ SnapOK(s) ==    \* s = [c, k, now, W, kind, rows]: rows of <<lp, delayed, stop>>
   LET live == SelectSeq(s.rows, LAMBDA r : ~r[3])
       X == {j \in 1..Len(live) : live[j][2] <= s.now}
       P == {j \in 1..Len(live) : live[j][2] > s.now}
-  IN /\ \A p \in P : \A x \in X : live[p][1] <= live[x][1]
-     /\ s.W # NoW => \A x \in X : Cardinality({j \in 1..Len(live) : live[j][1] > live[x][1]}) < s.W
+  IN /\ \A p \in P : \A x \in X : live[p][1] < live[x][1]          \* postponed strictly less probable: exact ties
+     /\ s.W # NoW => \A x \in X : Cardinality({j \in 1..Len(live) : live[j][1] > live[x][1]}) < s.W   \* are expanded together
      /\ s.W = NoW => P = {}
 C07Clause(I, cf, ev) ==
   IF \E j \in 1..Len(ev.snaps) : ~SnapOK(ev.snaps[j]) THEN "expansion-not-the-W-best"
   ELSE IF Fresh(ev) /\ ~SelectionSound(ev.lat, cf.W, 0) THEN "postponed-more-probable-than-expanded"
-  ELSE IF ev.aux.unpruned.present /\ ~CanonLeq(RCanon(ev), ACanon(ev.aux.unpruned), NOf(ev)) THEN "pruned-beats-unpruned"
+  ELSE IF ev.aux.unpruned.present /\ ~CanonLeq(RCanon(ev), ACanon(ev.aux.unpruned), NOf(ev)) THEN
+       \* signature of the recorded finding F-pathdep-prune: the scoring is path dependent (non-emitting
+       \* states or a second-order penalty) and the pruned run reports its path truthfully
+       (IF (cf.ne \/ cf.secondOrder) /\ (~cf.tables \/ PathScoresMatchModel(I, cf, ev.path))
+        THEN "pruned-beats-unpruned-under-path-dependent-scoring" ELSE "pruned-beats-unpruned")
   ELSE IF ev.aux.wide.present /\ ev.aux.unpruned.present /\ ACanon(ev.aux.wide) # ACanon(ev.aux.unpruned)
        THEN "wide-enough-differs-from-unpruned"
   ELSE IF ev.op = "widen" /\ i > 0 /\ ~CanonLeq(RCanon(Run.events[i]), RCanon(ev), NOf(ev)) THEN "widening-not-monotone"
@@ -103,7 +107,8 @@ C08Clause(I, cf, ev) ==
   ELSE IF ACanon(ev.aux.oneshot) # RCanon(ev) THEN "incremental-result-differs-from-one-shot"
   ELSE IF ev.aux.oneshot.path # PathSig(ev.path) THEN "incremental-path-differs-from-one-shot"
   ELSE ""
-C09Clause(I, cf, ev) == IF ~WellFormed(ev.lat) THEN "lattice-not-well-formed" ELSE ""
+C09Clause(I, cf, ev) == IF ~WellFormed(ev.lat) THEN "lattice-not-well-formed"
+                        ELSE IF ev.dangling # << >> THEN "predecessor-object-is-not-the-lattice-entry" ELSE ""
 
 \* ---- conformance with the specification's own lattice (diagnostic)
 SpecStep(I, cf, ev) ==
@@ -111,7 +116,8 @@ SpecStep(I, cf, ev) ==
   ELSE IF ev.op = "extend" THEN DoMatch(I, cf, M, ev.arg, TRUE)
   ELSE DoMatch(I, cf, M, M.n, TRUE)
 DriftClause(mr, ev) ==
-  IF mr.R.idx # ev.idx \/ PathSig(mr.R.path) # PathSig(ev.path) THEN "result-differs-from-specification"
+  IF mr.R.path = << >> /\ mr.M.lat = << >> THEN ""        \* not computed (no tables)
+  ELSE IF mr.R.idx # ev.idx \/ PathSig(mr.R.path) # PathSig(ev.path) THEN "result-differs-from-specification"
   ELSE IF mr.M.lat # ev.lat THEN "lattice-differs-from-specification" ELSE ""
 
 Clause(p, I, cf, ev, mr) ==
@@ -129,7 +135,7 @@ TraceInit == /\ tid \in 1..Len(Runs) /\ i = 0 /\ M = NewMatcher /\ plen = 0
 TraceNext ==
   /\ i < Len(Run.events)
   /\ LET ev == Ev  cf == CfAt(ev)  I == Inst
-         mr == IF "DRIFT" \in Want THEN SpecStep(I, cf, ev) ELSE [M |-> NewMatcher, R |-> [path |-> << >>, idx |-> 0]]
+         mr == IF "DRIFT" \in Want /\ cf.tables THEN SpecStep(I, cf, ev) ELSE [M |-> NewMatcher, R |-> [path |-> << >>, idx |-> 0]]
      IN /\ M' = mr.M /\ plen' = NOf(ev)
         /\ verdict' = [p \in Want |->
               IF verdict[p] # << >> THEN verdict[p]
